@@ -147,6 +147,7 @@ class SizeEval:
         self.mult: List[Any] = []       # trip counts of the enclosing loops (Poly) ; Unknown for while loops
         self.cond_depth = 0             # > 0: inside a branch whose condition is undecided
         self.depth = 0
+        self.concrete = 0               # > 0: inside a loop that is being unrolled on concrete values
         self.trace: List[str] = []
 
     # -- helpers ------------------------------------------------------------------------------
@@ -230,6 +231,24 @@ class SizeEval:
                             return IntV(Poly.const(a % b))
                     except (ZeroDivisionError, OverflowError):
                         return Unknown("arithmetic")
+            lc, rc = self.const_of(l), self.const_of(r)
+            if lc is not Unknown and rc is not Unknown and isinstance(lc, (int, float)) and isinstance(rc, (int, float)) \
+                    and not isinstance(lc, bool) and not isinstance(rc, bool):
+                try:
+                    if isinstance(e.op, ast.Add):
+                        v = lc + rc
+                    elif isinstance(e.op, ast.Sub):
+                        v = lc - rc
+                    elif isinstance(e.op, ast.Mult):
+                        v = lc * rc
+                    elif isinstance(e.op, ast.Div):
+                        v = lc / rc
+                    else:
+                        v = None
+                    if v is not None:
+                        return IntV(Poly.const(v)) if isinstance(v, int) else ConstV(v)
+                except (ZeroDivisionError, OverflowError):
+                    return Unknown("arithmetic")
             if isinstance(l, SeqV) and isinstance(r, SeqV) and isinstance(e.op, ast.Add):
                 if isinstance(l.box.n, Poly) and isinstance(r.box.n, Poly):
                     return SeqV(Box(l.box.n + r.box.n, "concatenation"))
@@ -342,6 +361,10 @@ class SizeEval:
             return ConstV((l.v == r.v) == isinstance(op, ast.Eq))
         if isinstance(l, IntV) and isinstance(r, ConstV) and isinstance(op, (ast.Eq, ast.NotEq)) and isinstance(r.v, (str, type(None))):
             return ConstV(isinstance(op, ast.NotEq))
+        lc, rc = self.const_of(l), self.const_of(r)
+        if lc is not Unknown and rc is not Unknown and isinstance(lc, (int, float)) and isinstance(rc, (int, float)) \
+                and not isinstance(lc, bool) and not isinstance(rc, bool) and isinstance(op, (ast.Lt, ast.LtE, ast.Gt, ast.GtE, ast.Eq, ast.NotEq)):
+            return ConstV({ast.Eq: lc == rc, ast.NotEq: lc != rc, ast.Lt: lc < rc, ast.LtE: lc <= rc, ast.Gt: lc > rc, ast.GtE: lc >= rc}[type(op)])
         if isinstance(l, IntV) and isinstance(r, IntV):
             d = l.p - r.p
             if d.is_const():
@@ -561,6 +584,9 @@ class SizeEval:
                 r = self.ev(st.value, env, fi)
                 if isinstance(cur, IntV) and isinstance(r, IntV) and isinstance(st.op, (ast.Add, ast.Sub)) and not self.mult and not self.cond_depth:
                     env[st.target.id] = IntV(cur.p + r.p if isinstance(st.op, ast.Add) else cur.p - r.p)
+                elif self.concrete and not self.cond_depth:
+                    fake = ast.BinOp(left=ast.Name(id="__l", ctx=ast.Load()), op=st.op, right=ast.Name(id="__r", ctx=ast.Load()))
+                    env[st.target.id] = self.ev(fake, {"__l": cur, "__r": r}, fi)
                 else:
                     env[st.target.id] = Unknown("augmented assignment")
             return
@@ -597,6 +623,28 @@ class SizeEval:
                 self.mult.pop()
             return
         if isinstance(st, ast.While):
+            # concrete unrolling: every variable of the condition has a concrete value (constant folding of a counting loop)
+            t = self.truth(self.ev(st.test, env, fi))
+            if t is not None and not self.cond_depth:
+                self.concrete += 1
+                try:
+                    n_iter = 0
+                    while t:
+                        n_iter += 1
+                        if n_iter > 4096:
+                            t = None
+                            break
+                        self.block(st.body, env, fi)
+                        t = self.truth(self.ev(st.test, env, fi))
+                finally:
+                    self.concrete -= 1
+                if t is not None:
+                    return
+                # the condition stopped being decidable: what the loop appended so far is not the whole story
+                for v in env.values():
+                    if isinstance(v, SeqV):
+                        v.box.n = Unknown("while loop whose condition is not decided")
+                return
             self.mult.append(Unknown("while loop"))
             try:
                 self.block(st.body, env, fi)
@@ -614,7 +662,9 @@ class SizeEval:
 
     def assign(self, t: ast.expr, v: Any, env, fi) -> None:
         if isinstance(t, ast.Name):
-            if (self.mult or self.cond_depth) and t.id in env and not self.same(env[t.id], v):
+            if self.concrete and not self.cond_depth:
+                env[t.id] = v
+            elif (self.mult or self.cond_depth) and t.id in env and not self.same(env[t.id], v):
                 env[t.id] = Unknown("assigned under a condition / in a loop")
             else:
                 env[t.id] = v
